@@ -233,23 +233,23 @@ Fixpoint build_values_w (bs : list N) (poses : list position) (data offs : list 
       do data' <- (if 0 <? len then do p <- slice_p bs off len; Ok (hd ++ p) else Ok hd);
       build_values_w bs r data' (offs ++ [lenN data'])
   end.
-(* build_scalar_array: the payloads are appended behind the reserved entry words, every entry word is written into its
-   slot (always inside the reserved region): (entry words, payload bytes) *)
-Fixpoint array_parts_w (bs : list N) (poses : list position) : res (list N * list N) :=
+(* build_scalar_array, literally: header, `len` zeroed entry slots reserved (data.resize), then for every position the
+   payload is appended at the end and the entry word is written into its slot (data[jentry_offset + i] = b) *)
+Fixpoint array_loop_w (bs : list N) (poses : list position) (data : list N) (joff : nat) : res (list N) :=
   match poses with
-  | [] => Ok ([], [])
-  | PosC off len :: r =>
-      do p <- slice_p bs off len;
-      do (ws, ps) <- array_parts_w bs r;
-      Ok (N.lor CONTAINER_TAG (u32 len) :: ws, p ++ ps)
-  | PosS ty off len :: r =>
-      do p <- (if 0 <? len then slice_p bs off len else Ok []);
-      do (ws, ps) <- array_parts_w bs r;
-      Ok (N.lor ty (u32 len) :: ws, p ++ ps)
+  | [] => Ok data
+  | pos :: r =>
+      do (data1, jentry) <-
+        match pos with
+        | PosC off len => do p <- slice_p bs off len; Ok (data ++ p, N.lor CONTAINER_TAG (u32 len))
+        | PosS ty off len => do p <- (if 0 <? len then slice_p bs off len else Ok []); Ok (data ++ p, N.lor ty (u32 len))
+        end;
+      array_loop_w bs r (patch data1 joff (be32 jentry)) (joff + 4)
   end.
 Definition build_scalar_array_w (bs : list N) (poses : list position) (data : list N) : res (list N * list N) :=
-  do (ws, ps) <- array_parts_w bs poses;
-  let data' := data ++ be32 (N.lor ARRAY_CONTAINER_TAG (u32 (lenN poses))) ++ flat_map be32 ws ++ ps in
+  let data1 := data ++ be32 (N.lor ARRAY_CONTAINER_TAG (u32 (lenN poses))) in
+  let joff := length data1 in
+  do data' <- array_loop_w bs poses (data1 ++ repeat 0 (4 * length poses)) joff;
   Ok (data', [lenN data']).
 (* build_predicate_result *)
 Definition build_predicate_result_w (poses : list position) (data : list N) : list N :=
